@@ -1,11 +1,27 @@
 (* Dispatch.v — the single entry point of the extracted driver:
-   dispatch k case = observation of model number k on the case. *)
+   dispatch k case = observation of model number k on the case.
+   The kind numbers are fixed; each run_*_case lives in its own *IO.v file. *)
 From Coq Require Import List Arith.
-From M Require Import Sx FlatIO.
+From M Require Import Sx FlatIO QueueIO MultiIO HsmIO NamingIO BuildIO MarkupIO DiagramIO FeaturesIO
+  TimerIO LockIO AsyncIO AsyncConcIO PickleIO FactoryIO.
 Import ListNotations.
 
 Definition dispatch (k : nat) (x : sx) : sx :=
   match k with
   | 0 => run_flat_case x
+  | 1 => run_queue_case x
+  | 2 => run_multi_case x
+  | 3 => run_hsm_case x
+  | 4 => run_naming_case x
+  | 5 => run_build_case x
+  | 6 => run_markup_case x
+  | 7 => run_diagram_case x
+  | 8 => run_features_case x
+  | 9 => run_timer_case x
+  | 10 => run_lock_case x
+  | 11 => run_async_case x
+  | 12 => run_asyncconc_case x
+  | 13 => run_pickle_case x
+  | 14 => run_factory_case x
   | _ => L [N 0]
   end.
